@@ -782,12 +782,19 @@ func (sh *cdcShadow) applyStmt(x execer, st *proto.Statement) ([]xEvent, error) 
 	return evs, nil
 }
 
+// xCommit is the set of row changes one commit made.
+type xCommit struct {
+	Events       []xEvent
+	Stmt         int // position of the committing statement in the request (transaction: the last one)
+	FailedBefore int // statements of the same request that failed (and were rolled back) before this commit
+}
+
 // Apply runs a whole request with rqlite's request semantics (without
 // transaction: every statement commits on its own and later statements still
 // run after a failure; with transaction: all or nothing, stop at the first
 // failure) and returns the row changes grouped per commit, in commit order.
 // Commits that changed no (matching) row produce no group.
-func (sh *cdcShadow) Apply(req *proto.Request) (groups [][]xEvent, stmtErrs int, err error) {
+func (sh *cdcShadow) Apply(req *proto.Request) (groups []xCommit, stmtErrs int, err error) {
 	ctx := context.Background()
 	conn, err := sh.db.Conn(ctx)
 	if err != nil {
@@ -816,11 +823,11 @@ func (sh *cdcShadow) Apply(req *proto.Request) (groups [][]xEvent, stmtErrs int,
 			return nil, 0, err
 		}
 		if len(all) > 0 {
-			groups = append(groups, all)
+			groups = append(groups, xCommit{Events: all, Stmt: len(req.Statements) - 1})
 		}
 		return groups, 0, nil
 	}
-	for _, st := range req.Statements {
+	for i, st := range req.Statements {
 		if st.Sql == "" {
 			continue
 		}
@@ -830,7 +837,7 @@ func (sh *cdcShadow) Apply(req *proto.Request) (groups [][]xEvent, stmtErrs int,
 			continue
 		}
 		if len(evs) > 0 {
-			groups = append(groups, evs)
+			groups = append(groups, xCommit{Events: evs, Stmt: i, FailedBefore: stmtErrs})
 		}
 	}
 	return groups, stmtErrs, nil
